@@ -4,6 +4,7 @@
 package abi
 
 //@ func EFIGUID.Put
+//@   assigns data[*]
 //@   sweep[C18]
 //@   ensures[C18] len(data) < 16 <==> err != nil
 //@   ensures[C18] err == nil ==> le32(data, 0) == g.Data1 && le16(data, 4) == g.Data2 && le16(data, 6) == g.Data3
@@ -12,6 +13,7 @@ package abi
 //@   ensures[C18] err != nil ==> forall(i, 0 <= i && i < len(data) ==> bytesAt(data, i) == old(bytesAt(data, i)))
 
 //@ func parseEFIGUID
+//@   assigns nothing
 //@   sweep[C18]
 //@   ensures[C18] len(data) == 16 <==> err == nil
 //@   ensures[C18] err == nil ==> result.Data1 == le32(data, 0) && result.Data2 == le16(data, 4) && result.Data3 == le16(data, 6)
